@@ -1,6 +1,7 @@
 """C11 Lexing always reaches EOF and accounts for every character."""
 import common
 import lexcommon
+from props import c07_lexgenspec
 
 LEVEL = "proof"
 
@@ -9,6 +10,7 @@ def run(r):
     r.require_theorems(1)
     r.run_witnesses()
     lexcommon.run_lex(r, "C11")
+    c07_lexgenspec.run_lexgenspec(r, "C11")
     # non-greedy rules (`*?`, `+?`, also a rule that is nothing but a `+?` term): progress and EOF
     lexcommon.run_lex(r, "C11", n_quick=10, n_thorough=100, family="lexng")
     r.assumptions += [
